@@ -10,9 +10,16 @@ import (
 
 var errDemuxConnCancelled = errors.New("demux connection cancelled")
 
+// demuxWrite is one envelope on its way to the shared transport; the outcome
+// of that write is reported on res (buffered: the writer never waits for it).
+type demuxWrite struct {
+	rpc *Rpc
+	res chan error
+}
+
 type demuxConn struct {
 	r chan *Rpc
-	w chan *Rpc
+	w chan demuxWrite
 	// done is closed by Cancel. The data channels are never closed: Run, the
 	// logical connection's writers and the writer goroutine may be sending on
 	// or receiving from them at that moment.
@@ -100,7 +107,7 @@ func (gsd *Demux) Cancel(id string) {
 func (gsd *Demux) newConnLocked(id string) *demuxConn {
 	c := &demuxConn{
 		r:    make(chan *Rpc),
-		w:    make(chan *Rpc),
+		w:    make(chan demuxWrite),
 		done: make(chan struct{}),
 	}
 
@@ -111,11 +118,12 @@ func (gsd *Demux) newConnLocked(id string) *demuxConn {
 				return
 			case <-c.done:
 				return
-			case rpc := <-c.w:
-				err := gsd.rw.Write(gsd.ctx, rpc)
-				if err != nil {
-					return
-				}
+			case wr := <-c.w:
+				// The outcome goes back to the Write that asked for it. A
+				// failed write does not end this goroutine: nobody else
+				// takes envelopes from c.w, so every later Write on the
+				// logical connection would block for good.
+				wr.res <- gsd.rw.Write(gsd.ctx, wr.rpc)
 			}
 		}
 	}()
@@ -148,6 +156,7 @@ func (rw *demuxReadWriter) Read(ctx context.Context) (*Rpc, error) {
 }
 
 func (rw *demuxReadWriter) Write(ctx context.Context, rpc *Rpc) error {
+	res := make(chan error, 1)
 	select {
 	case <-ctx.Done():
 		return ctx.Err()
@@ -155,7 +164,18 @@ func (rw *demuxReadWriter) Write(ctx context.Context, rpc *Rpc) error {
 		return errDemuxConnCancelled
 	case <-rw.gsd.ctx.Done():
 		return rw.gsd.ctx.Err()
-	case rw.c.w <- rpc:
-		return nil
+	case rw.c.w <- demuxWrite{rpc: rpc, res: res}:
+	}
+	// The envelope is with the connection's writer: report what the shared
+	// transport made of it, unless the caller stops waiting first.
+	select {
+	case err := <-res:
+		return err
+	case <-ctx.Done():
+		return ctx.Err()
+	case <-rw.c.done:
+		return errDemuxConnCancelled
+	case <-rw.gsd.ctx.Done():
+		return rw.gsd.ctx.Err()
 	}
 }
